@@ -147,7 +147,14 @@ func report(cfg *runConfig, cs *ContractSet, out *genOutput, results []*OblResul
 			if matches != nil {
 				covered := !allHaveWhen
 				if allHaveWhen {
-					r2 := solve(o.smtText(extra), cfg.timeout, false, false, o.Name+".kf")
+					light := ""
+					if o.Gen != nil && o.Gen.fn != nil {
+						light = o.smtTextS(extra, true)
+						if hasQuant(light) {
+							light = ""
+						}
+					}
+					r2 := solve2(o.smtText(extra), light, cfg.timeout, false, false, o.Name+".kf")
 					covered = r2.Answer == "unsat"
 				}
 				if covered {
